@@ -30,7 +30,7 @@ ANCHORS = {
     "C17": [("n0struct_utils.py", ["split_with_escape", "deserialize_list", "deserialize_key_value", "deserialize_dict", "serialize_dict", "unescape", "isnumber", "iterable"]), ("n0struct_comprehensions.py", []), ("n0struct_arrays.py", []),
             ("n0struct_files.py", ["save_file", "load_lines"])],
     "C18": [("n0struct_xml.py", [])],
-    "C19": [("n0struct_findall.py", [])],
+    "C19": [("n0struct_findall.py", []), ("n0struct_n0list_.py", ["n0list_.findall", "n0list_.findfirst"]), ("n0struct_n0dict_.py", ["n0dict_.findall", "n0dict_.findfirst"])],
 }
 for _p in ("C01", "C02", "C03", "C04", "C05", "C06"):
     ANCHORS[_p] = ANCHORS["xpath"]
